@@ -41,7 +41,7 @@ def run(chk):
     for c, o in zip(calls, free):
         n = int(o.split(" req=")[1].split()[0]) if " req=" in o else 0
         reqs.append(c + " 0 0"); meta.append((c, 0, 0, n))
-        for k in range(1, n + 2):
+        for k in range(1, n + 3):     # up to two positions beyond the model's count: extra requests of a changed implementation are failed too
             for fr in (0, 1):
                 reqs.append("%s %d %d" % (c, k, fr)); meta.append((c, k, fr, n))
     nontrivial = set(); corr = []; by_op = {}
